@@ -80,6 +80,7 @@ func respParts() []optPart {
 func runC09(c *Ctx) {
 	theCtx = c
 	c09ResponseSubsets(c)
+	randomCombinations(c, c.Groups["c09"], 300, true)
 	c09Logout(c)
 	c09Resolver(c)
 	c09IdP(c)
